@@ -4,9 +4,9 @@ defect matrix on the implementation; oracle = the property text (the verifying e
 report a completed handshake; its configured trust anchors must be untouched)."""
 from vlib import core
 
-WRAP = "-Wl,--wrap=tls_record_send,--wrap=tls_record_recv,--wrap=sm2_do_ecdh,--wrap=tls_pre_master_secret_generate,--wrap=tls_record_set_handshake_certificate,--wrap=hkdf_expand,--wrap=tls_uint24array_to_bytes"
+WRAP = "-Wl,--wrap=tls_record_send,--wrap=tls_record_recv,--wrap=sm2_do_ecdh,--wrap=tls_pre_master_secret_generate,--wrap=tls_record_set_handshake_certificate,--wrap=hkdf_expand,--wrap=tls_uint24array_to_bytes,--wrap=sm2_sign_finish"
 PROTOS = ["tlcp", "tls12", "tls13"]
-DEFECTS = ["untrusted-root", "expired", "not-yet-valid", "issuer-not-ca", "bad-cert-sig", "cert-other-sigalg", "key-mismatch"]
+DEFECTS = ["untrusted-root", "forged-intermediate", "expired", "not-yet-valid", "issuer-not-ca", "bad-cert-sig", "cert-other-sigalg", "key-mismatch"]
 
 
 def fields(line):
@@ -75,7 +75,7 @@ def run(ctx):
             ds = ["valid"] + DEFECTS + ["leaf-swapped"] \
                 + (["enc-key-mismatch", "enc-cert-other-ca"] if (p == "tlcp" and role == "client") else []) \
                 + (["no-cert", "empty-cert"] if role == "server" else [])
-            ds += ["anchors-many", "anchors-oversize", "not-before-2^32", "clock-2^32"]
+            ds += ["anchors-many", "anchors-oversize", "not-before-2^32", "clock-2^32", "replay-sig"]
             sizes = [2049, 2431, 4096, 15000]
             npos = 3 if p == "tlcp" and role == "client" else 2      # positions in the forger's chain
             if ctx.tier == "quick":
@@ -145,5 +145,5 @@ def finish(ctx):
         "rows 'key-mismatch' = wrong-key ServerKeyExchange signature / CertificateVerify (right certificate, other private key); 'leaf-swapped' = another valid leaf of the same CA with the original key; 'untrusted-root' on the server side = client chain valid but not under the server's client-CA anchors",
     ]
     return ctx.finish(level="proof",
-                      rule="3 protocols x {client verifies server, server verifies client} x {valid (control), untrusted root, expired, not yet valid (interposed clock), issuer not a CA, corrupted certificate signature, leaf with foreign signatureAlgorithm fields, certificate/private-key mismatch (= wrong-key signature / CertificateVerify), leaf swapped for another valid leaf, TLCP encryption-key mismatch, TLCP encryption certificate from another CA, no client certificate, empty client Certificate message, verifier's CA bundle of 5 certificates (control) and of 6 certificates > 2048 bytes (must be refused or still enforce), forged chains with one certificate of 2049 / 2431 / 4096 / 15000 bytes at each position (trust anchors must stay intact), validity dates 2^32 s away} x seeds; oracle: the verifying endpoint's handshake return is not 1",
+                      rule="3 protocols x {client verifies server, server verifies client} x {valid (control), untrusted root, forged intermediate naming a trusted root as issuer, expired, not yet valid (interposed clock), issuer not a CA, corrupted certificate signature, leaf with foreign signatureAlgorithm fields, certificate/private-key mismatch (= wrong-key signature / CertificateVerify), leaf swapped for another valid leaf, TLCP encryption-key mismatch, TLCP encryption certificate from another CA, no client certificate, empty client Certificate message, verifier's CA bundle of 5 certificates (control) and of 6 certificates > 2048 bytes (must be refused or still enforce), forged chains with one certificate of 2049 / 2431 / 4096 / 15000 bytes at each position (trust anchors must stay intact), validity dates 2^32 s away, cross-session replay of the peer's recorded ServerKeyExchange / CertificateVerify signature by a forger without the private key} x seeds; oracle: the verifying endpoint's handshake return is not 1",
                       trusted=core.TRUSTED_COMMON + ["credential generation with the library's X.509 functions (props/C08/tls_peer.h)", "Coq files: Tls/Handshake.v HandshakeProofs.v"])
